@@ -18,7 +18,7 @@ sys.path.insert(0, ROOT)
 from harness import tlc  # noqa: E402
 
 EVID_DIR = os.path.join(ROOT, "evidence")
-REPLAY_DIR = os.path.join(ROOT, "replays")
+REPLAY_DIR = os.environ.get("VERIF_REPLAY_DIR") or os.path.join(ROOT, "replays")
 KNOWN = os.path.join(ROOT, "known_findings.json")
 MAX_EVENTS_PER_FILE = 25000
 
